@@ -99,6 +99,25 @@ def graph_events(g, n, rng, do_dm, nsets, gp=None):
             conv.fn = {"g": "to_graph", "s": "to_stab", "dm": "to_pv"}[dst]
             e = guarded(conv.fn, f"convert_representation({src}->{dst})", conv)
             evs.append(e)
+    # the graph state held as a stabilizer state in ANOTHER generating set (signed products of the textbook generators)
+    if 2 <= n <= 4 and gp.number_of_edges() >= 1:
+        for dst in (["dm", "g"] if do_dm else ["g"]):
+            rows_ = gens
+            for _k in range(20):
+                rows_ = sg.random_regauge(rng, gens, steps=4 * n)
+                if any(r["s"] for r in rows_):
+                    break
+            tab_ = pj.rows_to_tableau(sg.random_destabilizers(rng, rows_), rows_)
+
+            def conv_signed(dst=dst, tab_=tab_):
+                qs = QuantumState(tab_.copy(), rep_type="s")
+                qs.convert_representation(dst)
+                fn, o = obs_of_state(qs, n, order=list(range(n)))
+                conv_signed.fn = fn
+                return o
+            conv_signed.fn = {"g": "to_graph", "dm": "to_pv"}[dst]
+            extra = {"has_st": True, "st": pj.tab_obs(tab_)} if dst == "dm" else None
+            evs.append(guarded(conv_signed.fn, f"convert_representation(s[signed gauge]->{dst})", conv_signed, extra))
     # chains of conversions on ONE QuantumState object (whatever the object keeps from the previous representation is in play)
     for _ in range(2):
         chain = [rng.choice(reps)]
